@@ -24,3 +24,9 @@ def _covers(c):
 
 
 harnesses = harnesses_for("C05", POST, _covers)
+
+
+def extra_checks(tier, seed, replay_dir, active_kf=()):
+    """E2: exact IEEE-754 execution of the float branch (engine/fpsym.py) - see harness/fp_extra.py"""
+    from harness import fp_extra
+    return fp_extra.run("C05", tier, replay_dir, active_kf)
